@@ -226,6 +226,12 @@ func genChan(g *simrt.Rng, e *Env, nCli, maxMsg, maxSize int, ends []int) ChanPl
 	if g.Bool(0.3) {
 		c.RecvDelayUs[1] = simrt.Pick(g, 10, 500, 20000)
 	}
+	for side := 0; side < 2; side++ {
+		if g.Bool(0.08) {
+			c.RecvCtx[side] = 1 + g.IntN(2)
+			c.RecvCtxUs[side] = simrt.Pick(g, 1, 20, 300, 3000, 50000)
+		}
+	}
 	if c.End == EndClientClose && g.Bool(0.15) {
 		// open+close batch
 		c.OpenClose = true
@@ -311,6 +317,11 @@ func genAckRace(g *simrt.Rng, tier string) *FlowPlan {
 	for i := 2 + g.IntN(4); i > 0; i-- { // victims: a few messages, then the close right behind them
 		c := ChanPlan{End: simrt.Pick(g, EndClientClose, EndClientFree), SrvChanCtx: true}
 		c.C2S = []Msg{{Size: hdrSize + g.IntN(8)}}
+		if g.Bool(0.4) {
+			// a handler with a deadline of its own on every Receive: it expires while the acknowledgement waits for room
+			c.RecvCtx[1] = 1 + g.IntN(2)
+			c.RecvCtxUs[1] = simrt.Pick(g, 1, 20, 300, 3000)
+		}
 		for k := 1 + g.IntN(3); k > 0; k-- {
 			c.C2S = append(c.C2S, Msg{Size: w/2 + g.IntN(w)})
 		}
@@ -381,6 +392,17 @@ func runFlowX(t *testing.T, seed uint64, p *FlowPlan, o RunOpts, prop string, se
 	if net != nil {
 		rep.addNet(net)
 	}
+	if rep.Inconclusive == "sim-cap" && len(rep.Violations) == 0 && !p.Faulty && net != nil && res.SimTime-net.LastIO > 10*time.Minute {
+		// Receivers with deadlines of their own keep the clock running, so a stall is no deadlock for the
+		// scheduler: the run reaches the cap of simulated time with nothing having moved for >10 minutes.
+		rep.Inconclusive = ""
+		if r.stranded > 0 {
+			rep.violate("F1-bytequeue-lost-wakeup", "stall with %d byte queue(s) holding unread data in a later block while the reader is parked without a wake-up token; live tasks: %v", r.stranded, res.Blocked)
+		} else {
+			rep.violate(prop+"-deadlock", "the run stopped making progress with work outstanding: the last byte moved at %v and receivers kept polling until %v; live tasks: %v; network: %v", net.LastIO, res.SimTime, res.Blocked, net.Dump())
+		}
+		return rep
+	}
 	if rep.Inconclusive != "" || len(rep.Violations) > 0 {
 		return rep
 	}
@@ -445,6 +467,7 @@ func runFlowX(t *testing.T, seed uint64, p *FlowPlan, o RunOpts, prop string, se
 	if p.Opt.Compression {
 		rep.count("probe:compression_runs", 1)
 	}
+	rep.count("probe:receives_repeated_after_own_deadline", int64(r.recvCtxExpired))
 	return rep
 }
 
